@@ -735,6 +735,40 @@ fn c07_blocking_two() {
     });
 }
 
+/// the last reader leaves while an upgrade is being polled (between its check and its listen)
+fn c06_upgrade_race() {
+    model(2, || {
+        let l = Arc::new(RwLock::new(Cell::new(0)));
+        let r = l.try_read().unwrap();
+        let l2 = l.clone();
+        let h = spawn(move || {
+            if let Some(u) = l2.try_upgradable_read() {
+                let w = block_on(RwLockUpgradableReadGuard::upgrade(u));
+                bump(&w);
+            }
+        });
+        let _ = peek(&r);
+        drop(r);
+        h.join().unwrap();
+    });
+}
+
+/// the last reader leaves while a write() is waiting for the readers
+fn c06_write_race() {
+    model(2, || {
+        let l = Arc::new(RwLock::new(Cell::new(0)));
+        let r = l.try_read().unwrap();
+        let l2 = l.clone();
+        let h = spawn(move || {
+            let w = block_on(l2.write());
+            bump(&w);
+        });
+        let _ = peek(&r);
+        drop(r);
+        h.join().unwrap();
+    });
+}
+
 /// a thread parked in wait_blocking, a failing initialiser and a second initialiser: the hand-over
 /// notification must reach the second initialiser (not the passive waiter), and everybody finishes
 fn c08_wait_blocking_handover() {
@@ -870,6 +904,8 @@ const ALL: &[(&str, fn())] = &[
     ("c03_blocking", c03_blocking),
     ("c09_blocking", c09_blocking),
     ("c08_blocking", c08_blocking),
+    ("c06_upgrade_race", c06_upgrade_race),
+    ("c06_write_race", c06_write_race),
     ("c07_blocking_two", c07_blocking_two),
     ("c08_wait_blocking_handover", c08_wait_blocking_handover),
     ("c09_cancel_race", c09_cancel_race),
